@@ -29,12 +29,35 @@ Init == /\ store = [i \in 1..N |-> 0]
         /\ ins = 0 /\ len = 0 /\ cnt = 0
 
 (* add_sample: write the whole record at the insert position, advance mod N *)
-Add == /\ cnt < MaxAdds
-       /\ store' = [store EXCEPT ![ins + 1] = cnt + 1]
-       /\ ins' = (ins + 1) % N
-       /\ len' = Min(len + 1, N)
-       /\ cnt' = cnt + 1
+Write == /\ cnt < MaxAdds
+         /\ store' = [store EXCEPT ![ins + 1] = cnt + 1]
+         /\ ins' = (ins + 1) % N
+         /\ len' = Min(len + 1, N)
+         /\ cnt' = cnt + 1
+
+Add == /\ Write
        /\ Emit("Add", <<cnt + 1>>, <<>>)
+
+(* How a call of add_sample is SPELLED.  add_sample takes the quantities as keyword arguments only; the      *)
+(* storage dtype of every field is the documented one (constructor dtypes, float by default).  The transition  *)
+(* that is added does not depend on the spelling of the call:                                                   *)
+(*   form  the Python type that carries the values of the documented-float fields: Python floats / float64     *)
+(*         arrays, Python ints (nested lists of ints for array fields), int64 arrays, uint8 arrays, jax int32  *)
+(*         arrays - an integer-typed value is a legal value of a float field and is stored as that float;      *)
+(*   half  the float fields of the transition with id k carry k + half/2: integral values (which every form can *)
+(*         carry) or fractional ones (float form only);                                                         *)
+(*   ord   the order in which the keywords are written at the call site (0: the declared key order, 1: that     *)
+(*         order reversed, 2: fields of equal shape exchanged) - keyword order has no meaning in a call.        *)
+(* All of this is invisible to the storage abstraction: AddAs(s) is Write for every s, on every history - in   *)
+(* particular whatever the spelling of the FIRST call was, which is the call that allocates the storage.        *)
+ValueForms == {"float", "pyint", "npint", "npuint8", "jaxint"}
+Orders == 0..2
+Spellings == {s \in [form : ValueForms, half : 0..1, ord : Orders] : s.form # "float" => s.half = 0}
+(* bound of the quick tier: value form and keyword order vary one at a time *)
+SpellingsPairwise == {s \in Spellings : s.ord = 0 \/ s.form = "float"}
+
+AddAs(s) == /\ Write
+            /\ Emit("Add", <<cnt + 1, s.form, s.half, s.ord>>, <<>>)
 
 (* sample_batch: any vector of indices below len; rows are the stored records *)
 IndexVectors == UNION {[1..b -> 0..(len - 1)] : b \in 1..MaxBatch}
@@ -56,6 +79,11 @@ Reweigh(w) == /\ len > 0
 Next == Add \/ (\E idx \in IndexVectors : Sample(idx)) \/ LenQuery \/ (\E w \in Weights : Reweigh(w))
 
 Spec == Init /\ [][Next]_vars
+
+(* the same operations with every call of add_sample spelled in every way *)
+Observers == (\E idx \in IndexVectors : Sample(idx)) \/ LenQuery \/ (\E w \in Weights : Reweigh(w))
+NextCalls == (\E s \in SpellingsPairwise : AddAs(s)) \/ Observers
+NextCallsFull == (\E s \in Spellings : AddAs(s)) \/ Observers
 
 ----------------------------------------------------------------------------
 (* Properties (C02) *)
